@@ -12,6 +12,12 @@ asyncio adapter, virtual clock, fake transport); the harness plays the peer with
   a transport drop requested and (after the connection-lost notification) ``onClose(wasClean=False, ..)``.
   Since no payload octet was ever supplied nothing can have been buffered.  Afterwards the payload and further
   valid messages are supplied: nothing over-limit may ever be delivered.
+* lifecycle: the same streams with the closing handshake already started - by the application's ``sendClose()`` (both
+  roles) or by the peer's close frame (client role: the client answers and waits for the TCP drop) - before the
+  offending header, between the fragments of the offending message, before the message, or right after the opening
+  handshake.  Messages are still delivered in that window, so the limits must hold there: no over-limit message may
+  reach ``onMessage`` (a second close frame cannot be sent, so only non-delivery is asserted; drop-at-header is
+  recorded), and at/below-limit messages arriving after the application's ``sendClose()`` are delivered intact.
 * send side: ``sendMessage`` on an endpoint with ``maxMessagePayloadSize``: over-limit => an exception and not
   one octet written (also after the queued-write timers ran); within limit => exactly that message on the wire.
 * decompression limit (``max_message_size`` of PerMessageDeflateOfferAccept / ResponseAccept): the peer sends
@@ -37,7 +43,9 @@ RULE = ("core grid: role{server,client} x failByDrop{F,T} x limit kind{frame,mes
         "fragment followed by another, empty first/last fragments, frames of exactly the limit, continuation one over} "
         "with rotating header delivery{alone, glued to the previous frame, octet by octet}, stream segmentation, "
         "0-2 preceding within-limit messages, interleaved ping/pong; the same with permessage-deflate on (limits act "
-        "on wire lengths); send side: sequences of sendMessage sizes around the limit with/without fragmentation, "
+        "on wire lengths); lifecycle: a quarter (thorough: half) of that grid again, plus every second at/above case, with the "
+        "closing handshake started by the application's sendClose() or (client) the peer's close frame x position{before the "
+        "offending header, between fragments, before the message, right after the opening handshake}; send side: sequences of sendMessage sizes around the limit with/without fragmentation, "
         "sync writes and compression; decompression limit: inflated sizes around max_message_size x content{stored, "
         "text, bomb} x layouts x segmentations x context takeover on/off x 0-3 following messages; plus seed-derived "
         "random cases of all families. A case is non-trivial when its deciding monitor fired (header-only failure "
@@ -51,6 +59,7 @@ ASSUMPTIONS = [
     "send side with compression and context takeover: a message that was REFUSED must not leave traces in the compression context - the following within-limit messages must inflate to what was passed to sendMessage at an RFC 7692 peer (clause 'messages at or below the limit are unaffected')",
     "the raw-octet peer is a CONFORMING RFC 7692 sender: it keeps its compression context across messages only when no-context-takeover was not negotiated for its direction (an earlier version of this check did not and produced zlib errors that were the harness's fault); a frame whose declared payload is never supplied (2^40 / 2^63-1) is only generated where a configured limit stops the stream at its header",
     "decompression limit: an over-limit message may either fail the connection (any close code; 1009 recorded) or be delivered INTACT (today the cap is applied per inflate call, so a message trickled in small reads passes) - only truncated/altered deliveries, corrupted or lost later messages, disturbed within-limit messages and exceptions reaching the framework are violations; max_message_size None/0 = no limit",
+    "closing window (state CLOSING after the application's sendClose(), or after a client answered the peer's close): both trees still deliver messages there, so 'no over-limit message is ever delivered' is asserted there too; since no second close frame can be sent only NON-DELIVERY is asserted for the over-limit message (whether the endpoint drops at the header, later, or discards the payload is recorded in closing_hdr_* counters); at/below-limit messages sent after the APPLICATION's sendClose() must be delivered intact; messages a peer sends after ITS OWN close frame (non-conforming peer) may or may not be delivered (grey) but never over-limit or altered",
     "control frame payloads are kept <= the frame limit (whether maxFramePayloadSize applies to control frames is not stated)",
     "after a failure in closing-handshake mode only 'nothing over-limit / nothing unexpected is delivered and no exception escapes' is asserted; how the closing handshake then completes belongs to C05",
     "NVX: shards run with AUTOBAHN_USE_NVX=1 (native modules rebuilt from the tree when testing /repo; the installed ones for scratch copies given by VERIF_REPO_SRC) and, in the thorough tier, additionally AUTOBAHN_USE_NVX=0",
@@ -68,6 +77,9 @@ DECIDING = {
     "send_pmce_after_refusal_checked": 2,
     "decomp_cases_evaluated": 20, "decomp_over_limit_cases": 10, "decomp_followups_compared": 10,
     "decomp_at_limit_intact": 2,
+    "closing_over_limit_not_delivered": 40, "closing_between_fragments": 8, "closing_before_message": 8,
+    "closing_mode_app_close": 20, "closing_mode_peer_close": 4, "closing_over_limit_pmce": 4,
+    "closing_within_limit_delivered_intact": 20, "closing_at_limit_delivered_intact": 8, "closing_decomp_cases": 4,
     "roles": 2, "fail_modes": 2,
 }
 
@@ -87,6 +99,7 @@ class Conn:
 
         self.case = case
         self.role = case["role"]
+        self.own_closes = 0
         self.w = WS()
         self.ep = None
         opts = {"failByDrop": bool(case.get("fbd", True)),
@@ -151,7 +164,28 @@ class Conn:
         return [f for f in frames if f["op"] == ref.OP_CLOSE]
 
     def failed(self):
-        return bool(self.close_frames()) or self.ep.close_requested is not None or self.ep.lost
+        # close frames the endpoint wrote for a lifecycle event (its own sendClose() / its reply to the peer's close)
+        # are not failures
+        return len(self.close_frames()) > self.own_closes or self.ep.close_requested is not None or self.ep.lost
+
+    def lifecycle_event(self, mode, rng):
+        """Move the endpoint into the closing handshake: 'app_close' = the application calls sendClose(1000);
+        'peer_close' = the peer sends a close frame (the endpoint replies).  -> True when the endpoint is now waiting
+        (exactly one close frame written, no drop requested) - only then messages can still arrive."""
+        before = len(self.close_frames())
+        if mode == "app_close":
+            self.ep.proto.sendClose(1000, "bye")
+        elif mode == "peer_close":
+            key = rng.randbytes(4) if self.mask_needed else None
+            self.ep.feed(ref.encode_frame(ref.OP_CLOSE, b"\x03\xe8", mask=key))
+        else:
+            raise ValueError(mode)
+        self.w.world.settle()
+        ok = (len(self.close_frames()) == before + 1 and self.ep.close_requested is None and not self.ep.lost
+              and not self.ep.escaped)
+        if ok:
+            self.own_closes += 1
+        return ok
 
     def deliveries(self):
         return [(bool(e[3]), bytes(e[2])) for e in self.ep.proto.__dict__.get("vf_app", []) if e[1] == "onMessage"]
@@ -304,6 +338,48 @@ def rel_of(msg, F, M, D=None):
     return "at" if at else "below"
 
 
+def _units_for(frs, seg, rng):
+    units = []
+    if seg in ("frame", "split"):
+        for fr in frs:
+            if seg == "split" and fr.payload:
+                units += [fr.header, fr.payload]
+            else:
+                units.append(fr.header + (fr.payload or b""))
+    elif seg == "msg":
+        cur, last = b"", None
+        for fr in frs:
+            if last is not None and fr.msg != last:
+                units.append(cur)
+                cur = b""
+            cur += fr.header + (fr.payload or b"")
+            last = fr.msg
+        if cur:
+            units.append(cur)
+    else:
+        units = feed_units(b"".join(fr.header + (fr.payload or b"") for fr in frs), seg, rng)
+    return units
+
+
+def _lifecycle_index(lc, frames, off, upto):
+    """Index of the frame before which the closing handshake starts.  The target message is the offending one, or -
+    when nothing offends - the last message of the stream."""
+    pos = lc.get("pos", "before_offender")
+    if pos == "start" or not frames:
+        return 0
+    target = frames[off].msg if off is not None else frames[upto - 1].msg
+    first = min(i for i, f in enumerate(frames) if not f.ctrl and f.msg == target)
+    outer = upto if off is not None else min(first, upto)
+    if pos == "before_message":
+        return min(first, upto)
+    if pos == "mid_message":          # before a later data frame of the target message, not beyond the offending frame
+        inner = [i for i, f in enumerate(frames) if not f.ctrl and f.msg == target and first < i <= upto]
+        return inner[len(inner) // 2] if inner else outer
+    if pos == "before_offender":
+        return outer
+    raise ValueError(pos)
+
+
 def run_recv(case, R):
     R.count("evaluations")
     conn = Conn(case)
@@ -340,44 +416,47 @@ def _run_recv(case, R, conn):
     upto = len(frames) if off is None else off
     if any(fr.payload is None for fr in frames[:upto]):
         raise RuntimeError("harness: a frame whose payload is never supplied lies before the first over-limit frame (%r)" % (_brief(case),))
-    units = []
-    if seg in ("frame", "split"):
-        for fr in frames[:upto]:
-            if seg == "split" and fr.payload:
-                units += [fr.header, fr.payload]
-            else:
-                units.append(fr.header + (fr.payload or b""))
-    elif seg == "msg":
-        cur, last = b"", None
-        for fr in frames[:upto]:
-            if last is not None and fr.msg != last:
-                units.append(cur)
-                cur = b""
-            cur += fr.header + (fr.payload or b"")
-            last = fr.msg
-        if cur:
-            units.append(cur)
+    # lifecycle dimension: the limits must hold in every state in which messages are still delivered.  ``lc`` puts the
+    # endpoint into the closing handshake (the application's sendClose(), or - client role - the peer's close frame
+    # which the client answers and then waits for the TCP drop) BEFORE frame ``lc_at`` of the stream.
+    lc = case.get("lc")
+    lc_at = _lifecycle_index(lc, frames, off, upto) if lc else None
+    EVENT = object()
+    if lc:
+        units = _units_for(frames[:lc_at], seg, rng) + [EVENT] + _units_for(frames[lc_at:upto], seg, rng)
     else:
-        units = feed_units(b"".join(fr.header + (fr.payload or b"") for fr in frames[:upto]), seg, rng)
+        units = _units_for(frames[:upto], seg, rng)
     hdr_units = []
     if off is not None:
         hdr = frames[off].header
-        if hdr_mode == "glued" and units:
+        if hdr_mode == "glued" and units and units[-1] is not EVENT:
             units[-1] = units[-1] + hdr
         elif hdr_mode == "bytewise":
             hdr_units = [hdr[i:i + 1] for i in range(len(hdr))]
         else:
             hdr_units = [hdr]
     for u in units:
-        ep.feed(u)
+        if u is EVENT:
+            if not conn.lifecycle_event(lc["mode"], rng):
+                # the closing handshake did not start as expected (C05's subject): nothing to judge here
+                R.count("lifecycle_event_unexpected")
+                return
+        else:
+            ep.feed(u)
     expected = [m for m in messages if m["complete_at"] < upto and not m["huge"]]
+    # messages the peer sends AFTER ITS OWN close frame (a non-conforming but possible peer): whether they are still
+    # delivered is not the statement's business - if delivered they must be intact and within the limits
+    optional = set(m["index"] for m in expected if lc and lc["mode"] == "peer_close" and m["complete_at"] >= lc_at)
+    ktag = "closing/" if lc else ""
+    grey_window = bool(lc and lc["mode"] == "peer_close" and lc_at < upto)      # frames were sent after the peer's own close
 
     if off is None or hdr_units:
         # nothing offending has been announced so far: the connection must be untouched
-        if conn.failed() or ep.escaped:
+        if (conn.failed() and not grey_window) or ep.escaped:
             rels = sorted(set(rel_of(m, F, M) for m in expected)) or ["below"]
-            viol("%s-limit-disturbed/connection-failed" % rels[0],
-                 "connection failed although every frame delivered so far is within the limits",
+            viol(ktag + "%s-limit-disturbed/connection-failed" % rels[0],
+                 "connection failed although every frame delivered so far is within the limits"
+                 + (" (closing handshake pending: %s before frame %d)" % (lc["mode"], lc_at) if lc else ""),
                  {"close_frames": [f["payload"][:2].hex() for f in conn.close_frames()]})
             return
     # ---- 2. header of the offending frame only
@@ -391,7 +470,15 @@ def _run_recv(case, R, conn):
         closes = conn.close_frames()
         ok = False
         if ep.escaped:
-            viol(tagk + "/exception-escaped", "exception reached the framework while the over-limit frame header was processed")
+            viol(ktag + tagk + "/exception-escaped", "exception reached the framework while the over-limit frame header was processed")
+        elif lc:
+            # a second close frame cannot be sent: HOW the endpoint gets rid of the message (drop at the header, drop
+            # later, discard the payload) is recorded; asserted below = it is never delivered
+            if ep.close_requested is not None:
+                R.count("closing_hdr_dropped_at_header")
+                ep.finish_close()
+            else:
+                R.count("closing_hdr_not_dropped_at_header")
         elif not fbd:
             if not closes:
                 viol(tagk + "/not-failed-on-header",
@@ -437,48 +524,75 @@ def _run_recv(case, R, conn):
             if fr.payload is not None and fr.n <= MAX_SUPPLY:
                 rest += fr.payload
                 for g in frames[off + 1:]:
-                    if g.payload is None:
+                    if g.payload is None or (lc and not g.ctrl and g.msg != fr.msg):
                         break
                     rest += g.header + g.payload
                 else:
-                    tail = P.content("text", 5, 4242)
-                    key = rng.randbytes(4) if conn.mask_needed else None
-                    rest += P.frame_header(ref.OP_BIN, len(tail), True, 0, key) + (P.fast_xor(tail, key) if key else tail)
+                    if not lc:
+                        tail = P.content("text", 5, 4242)
+                        key = rng.randbytes(4) if conn.mask_needed else None
+                        rest += P.frame_header(ref.OP_BIN, len(tail), True, 0, key) + (P.fast_xor(tail, key) if key else tail)
                 for u in feed_units(rest, "mtu", rng):
                     ep.feed(u)
-                R.count("post_failure_payload_supplied")
+                R.count("closing_payload_supplied" if lc else "post_failure_payload_supplied")
                 if ep.escaped:
-                    viol("exception-escaped-after-failure", "exception reached the framework after the connection had been failed for an over-limit frame")
+                    viol(ktag + "exception-escaped-after-failure", "exception reached the framework after the connection had been failed for an over-limit frame")
     # ---- 4. deliveries
     got = conn.deliveries()
-    for i, (b, p) in enumerate(got):
-        if i >= len(expected):
+    where = " while the closing handshake was pending (%s before frame %d)" % (lc["mode"], lc_at) if lc else ""
+    j, delivered = 0, set()
+    for (b, p) in got:
+        while j < len(expected) and expected[j]["index"] in optional and (b, p) != (expected[j]["bin"], expected[j]["payload"]):
+            j += 1
+        if j >= len(expected):
             over = (M > 0 and len(p) > M and not conn.pmce)
-            viol("over-limit-delivered" if (over or off is not None) else "unexpected-delivery",
-                 "onMessage fired with %d octets for a message that was never completed within the limits (F=%d M=%d)" % (len(p), F, M))
+            viol(ktag + ("over-limit-delivered" if (over or off is not None) else "unexpected-delivery"),
+                 "onMessage fired with %d octets for a message that was never completed within the limits (F=%d M=%d)%s"
+                 % (len(p), F, M, where))
             return
-        e = expected[i]
+        e = expected[j]
         if (b, p) != (e["bin"], e["payload"]):
-            viol("%s-limit-disturbed/altered" % rel_of(e, F, M),
-                 "a within-limit message was delivered altered (sent %d octets, got %d)" % (len(e["payload"]), len(p)),
+            viol(ktag + "%s-limit-disturbed/altered" % rel_of(e, F, M),
+                 "a within-limit message was delivered altered (sent %d octets, got %d)%s" % (len(e["payload"]), len(p), where),
                  {"message_index": e["index"]})
             return
-    if len(got) < len(expected):
-        e = expected[len(got)]
-        viol("%s-limit-disturbed/not-delivered" % rel_of(e, F, M),
-             "a within-limit message (%d octets, limits F=%d M=%d) was not delivered" % (len(e["payload"]), F, M),
+        delivered.add(e["index"])
+        j += 1
+    missing = [e for e in expected[j:] if e["index"] not in optional]
+    if missing:
+        e = missing[0]
+        viol(ktag + "%s-limit-disturbed/not-delivered" % rel_of(e, F, M),
+             "a within-limit message (%d octets, limits F=%d M=%d) was not delivered%s" % (len(e["payload"]), F, M, where),
              {"message_index": e["index"]})
         return
     for e in expected:
+        if e["index"] not in delivered:
+            R.count("grey_after_peer_close_not_delivered")
+            continue
         r = rel_of(e, F, M)
         R.count({"at": "at_limit_delivered_intact", "below": "below_limit_delivered_intact",
                  "nolimit": "no_limit_control_delivered"}[r])
         if conn.pmce and M > 0 and len(e["payload"]) > M:
             R.count("grey_inflated_over_message_limit")
+        if lc and e["complete_at"] >= lc_at:
+            R.count("closing_within_limit_delivered_intact")
+            if r == "at":
+                R.count("closing_at_limit_delivered_intact")
     if off is None:
         if ep.escaped:
-            viol("exception-escaped", "exception reached the framework on a stream within the limits")
+            viol(ktag + "exception-escaped", "exception reached the framework on a stream within the limits")
             return
+        R.seen("nontrivial", _case_key(case))
+    elif lc and not ep.escaped:
+        # the over-limit header (and, when the endpoint did not drop, the payload) arrived in the closing window and
+        # nothing over-limit reached the application
+        R.count("closing_over_limit_not_delivered")
+        R.count("closing_mode_" + lc["mode"])
+        first_of_msg = min(i for i, f in enumerate(frames) if not f.ctrl and f.msg == frames[off].msg)
+        R.count("closing_before_message" if lc_at <= first_of_msg else "closing_between_fragments")
+        if conn.pmce:
+            R.count("closing_over_limit_pmce")
+        R.seen("closing_classes", "%s/%s/%s/%s/%s" % (role, "drop" if fbd else "close", lc["mode"], kind, fam))
         R.seen("nontrivial", _case_key(case))
     R.sample(_brief(case, frames, off, kind), kind=fam, every=97)
 
@@ -504,13 +618,23 @@ def _run_decomp(case, R, conn):
     frames, messages = build_stream(case, conn)
     R.seen("roles", role)
     seg = case.get("seg", "frame")
-    if seg == "frame":
-        units = [fr.header + fr.payload for fr in frames]
+    lc = case.get("lc")
+    EVENT = object()
+    if lc:      # the application starts the closing handshake before message lc["msg"]; messages are still delivered then
+        k = min(i for i, f in enumerate(frames) if f.msg == min(int(lc.get("msg", 0)), len(messages) - 1))
+        units = _units_for(frames[:k], seg, rng) + [EVENT] + _units_for(frames[k:], seg, rng)
     else:
-        units = feed_units(b"".join(fr.header + fr.payload for fr in frames), seg, rng)
+        units = _units_for(frames, seg, rng)
     for u in units:
-        ep.feed(u)
+        if u is EVENT:
+            if not conn.lifecycle_event(lc["mode"], rng):
+                R.count("lifecycle_event_unexpected")
+                return
+        else:
+            ep.feed(u)
     R.count("decomp_cases_evaluated")
+    if lc:
+        R.count("closing_decomp_cases")
     over_idx = [m["index"] for m in messages if D and len(m["payload"]) > D]
     if over_idx:
         R.count("decomp_over_limit_cases")
@@ -522,7 +646,7 @@ def _run_decomp(case, R, conn):
         d.update(extra or {})
         d["role"] = role
         # the mechanism lives in the PMCE class shared by both roles: role is in the detail, not in the key
-        R.violation("C16/pmce-deflate/%s" % key, what, d, case)
+        R.violation("C16/pmce-deflate/%s%s" % ("closing/" if case.get("lc") else "", key), what, d, case)
 
     if ep.escaped:
         viol("exception-escaped/%s" % type(ep.escaped[0].exc).__name__,
@@ -847,6 +971,33 @@ def gen_recv_pmce(tier, seed):
     return cases
 
 
+def gen_lifecycle(tier, seed):
+    """The receive grid again with the closing handshake started (by the application, or - client role - by the peer)
+    before the offending frame / between the fragments of the target message / before the target message / right after
+    the opening handshake; target = the offending message, or the last (at/below-limit) message when nothing offends."""
+    rng = random.Random(seed * 1000003 + 16)
+    base = gen_recv_core(tier, seed) + gen_recv_pmce(tier, seed)
+    step = 4 if tier == "quick" else 2
+    poss = ["before_offender", "mid_message", "before_message", "before_offender", "start", "mid_message"]
+    cases = []
+    n = 0
+    npos = {"app_close": 0, "peer_close": 0}
+    for idx, b in enumerate(base):
+        sc = b["cls"].split("/")[-2] if b["cls"].count("/") >= 2 else ""
+        keep = (idx % step == 0) or (sc in ("at", "above") and idx % 2 == 0)
+        if not keep or b["F"] == 0 and b["M"] == 0:
+            continue
+        n += 1
+        c = dict(b)
+        mode = "peer_close" if (b["role"] == "client" and n % 4 == 0) else "app_close"
+        npos[mode] += 1
+        c["lc"] = {"mode": mode, "pos": poss[npos[mode] % len(poss)]}
+        c["cls"] = "lc/%s/%s/%s" % (mode, c["lc"]["pos"], b["cls"])
+        c["mseed"] = rng.getrandbits(30)
+        cases.append(c)
+    return cases
+
+
 def gen_send(tier, seed):
     rng = random.Random(seed * 1000003 + 13)
     cases = []
@@ -918,6 +1069,10 @@ def gen_decomp(tier, seed):
                         cases.append({"fam": "decomp", "pmce": True, "role": role, "fbd": fbd, "D": D, "F": 0, "M": 0, "lay_lim": base,
                                       "cls": "%s/%s/%s" % (D, sc, kind), "msgs": msgs, "seg": segs[rot % len(segs)],
                                       "peer_takeover": bool(rot % 3), "rx_reset": bool(rot % 3 == 0), "mseed": rng.getrandbits(30)})
+                        if D and rot % (4 if tier == "quick" else 2) == 0:
+                            # the same with the application's sendClose() right before the message around the limit
+                            cases.append(dict(cases[-1], lc={"mode": "app_close", "msg": rot % 2}, cls="lc/" + cases[-1]["cls"],
+                                              mseed=rng.getrandbits(30)))
     return cases
 
 
@@ -957,6 +1112,9 @@ def gen_random(tier, seed, n):
                           "cls": "random", "msgs": msgs, "seg": rng.choice(["frame", "split", "msg", "mtu"] if big else ["frame", "split", "msg", "bytewise", "random", "whole", "mtu"]),
                           "hdr_mode": rng.choice(["alone", "glued", "bytewise"]), "mseed": rng.getrandbits(30),
                           "rx_reset": False, "peer_takeover": False, "after": True})
+            if (F or M) and rng.random() < 0.2:
+                cases[-1]["lc"] = {"mode": "peer_close" if (role == "client" and rng.random() < 0.3) else "app_close",
+                                   "pos": rng.choice(["before_offender", "mid_message", "before_message", "start"])}
             if pm:      # a conforming peer keeps its context only when no-context-takeover was NOT negotiated for its direction
                 cases[-1]["rx_reset"] = rng.random() < 0.3
                 cases[-1]["peer_takeover"] = (not cases[-1]["rx_reset"]) and rng.random() < 0.6
@@ -990,6 +1148,7 @@ def gen_random(tier, seed, n):
 
 def all_cases(tier, seed):
     cases = gen_recv_core(tier, seed) + gen_recv_pmce(tier, seed) + gen_send(tier, seed) + gen_decomp(tier, seed)
+    cases += gen_lifecycle(tier, seed)
     cases += gen_random(tier, seed, 600 if tier == "quick" else 6000)
     return cases
 
@@ -1045,7 +1204,9 @@ def run_shard(params, R):
     cases = all_cases(params["tier"], params["seed"])
     part, parts = params["part"], params["parts"]
     for k in ("send_pmce_refused_zero_written", "send_pmce_after_refusal_checked", "decomp_followups_compared",
-              "decomp_at_limit_intact", "hdr_fail_huge_declared", "hdr_fail_pmce_wire"):
+              "decomp_at_limit_intact", "hdr_fail_huge_declared", "hdr_fail_pmce_wire", "closing_between_fragments",
+              "closing_before_message", "closing_mode_peer_close", "closing_over_limit_pmce", "closing_at_limit_delivered_intact",
+              "closing_decomp_cases"):
         R.count(k, 0)
     for idx, case in enumerate(cases):
         if idx % parts != part:
@@ -1066,7 +1227,10 @@ MANIFEST_ENTRY = {
              "is delivered (payload withheld, so nothing can have been buffered) and the trace must already show the failure "
              "(close frame 1009, or transport drop + unclean onClose with failByDrop) for every limit kind x 7/16/64-bit length "
              "form x first/continuation frame, declared sizes up to 2^63-1; at/below-limit messages must arrive intact; nothing "
-             "over-limit is ever delivered when the payload is supplied afterwards. Send side: over-limit sendMessage must raise "
+             "over-limit is ever delivered when the payload is supplied afterwards; the same streams are replayed with the closing "
+             "handshake already pending (application sendClose() / peer close answered by a client; before the offending header, "
+             "between fragments, before the message): nothing over-limit may be delivered in that window either and at/below-limit "
+             "messages after the application's sendClose() still arrive intact. Send side: over-limit sendMessage must raise "
              "with zero octets written (also after queued-write timers), within-limit sends must put exactly the message on the "
              "wire (inflated by a zlib reference when compressed, also after a refused send). Decompression limit "
              "(max_message_size): every delivery must equal a sent message, later messages stay intact, no exception reaches the "
